@@ -123,6 +123,8 @@ def rt_harnesses(update_now=False, only=None):
 HARNESSES = rt_harnesses()
 # block codec staging layer (K-block contract): IMA ADPCM, WAV and AIFF layouts
 HARNESSES += _load("blk_common").ima_harnesses(("SEL_WRITE",))
+# CAF/ALAC packet table ('pakt' chunk) written at close vs what a reader rebuilds from it
+HARNESSES += _load("blk_common").alac_stage_harnesses(("SEL_PAKT",))
 
 META = {"assumptions": ["E-memfile with abstract data region", "handle state prepared as psf_open_file does (harness/include/preopen.h)",
                         "frames accepted are installed the way the public write wrappers leave them (C05)"],
